@@ -117,9 +117,11 @@ def main(argv):
     if command == "replay":
         return replay(argv[2])
     if command == "determinism":
+        common.exclusive(f"determinism-{seed}")
         import determinism
         return determinism.main(argv[2:], seed)
     tier = tier_of(argv, 2)
+    common.exclusive(f"{command}-{seed}")
     if command == "C16":
         return check_c16(tier, seed)
     if command == "C08":
